@@ -92,6 +92,12 @@ def C02_next (S : Segmenter) (R : RCfg) (prompt : Text) (s : RS) (g : C02_Shown)
   | .sync _ _ _ => g
   | .writeln => g
 
+/-- the prompt of an incremental search: `(reverse-i-search)`text': ` or `(failed reverse-i-search)`text': ` -/
+def C02_searchPrompt (buf : Text) (ok : Bool) : Text :=
+  (if ok then "(reverse-i-search)`" else "(failed reverse-i-search)`").toList ++ buf ++ "': ".toList
+
+def C02_IsSearchPrompt (p : Text) : Prop := ∃ buf ok, p = C02_searchPrompt buf ok
+
 def C02_PlainSplit (S : Segmenter) (R : RCfg) (line : Text) (pos : Nat) (info : Option Text) : Prop :=
   ∀ b a, splitAtByte line pos = some (b, a) →
     C02_Plain S R b ∧ C02_Plain S R a ∧ C02_Plain S R (info.getD [])
@@ -106,7 +112,8 @@ def C02_StepOK (S : Segmenter) (R : RCfg) (prompt : Text) (s : RS) (g : C02_Show
   | .clearScreen => True
   | .moveToEnd => True
   | .sync line pos hint =>
-    g.prompt = prompt ∧ splitAtByte line pos = some (g.before, g.after) ∧ (g.hint = hint.getD [] ∨ g.hint = [])
+    (g.prompt = prompt ∨ C02_IsSearchPrompt g.prompt) ∧
+    splitAtByte line pos = some (g.before, g.after) ∧ (g.hint = hint.getD [] ∨ g.hint = [])
   | .writeln => False
 
 /-- every operation of the log is issued in a situation the theorem covers -/
